@@ -96,7 +96,7 @@ static void t2_check_inv(void) {
 						"queue: a request leaves only (a) written completely, now waiting for its response, (b) failed with an error code, or (c) because it was not waiting for dispatch at all");
 			} else {
 				__CPROVER_assert(T2H(i).state == t2_state0[i] && T2H(i).reqTime == t2_reqTime0[i] && T2H(i).raw == t2_rawp[i] && T2H(i).len == t2_len0[i], "queue: a request that stays queued is untouched (state, clock, payload)");
-				__CPROVER_assert(T2H(i).sentCount == t2_sent0[i] + t2_written[i], "queue: the send cursor of a queued request counts exactly the octets written");
+				__CPROVER_assert(T2H(i).sentCount == t2_sent0[i] + t2_written[i] || (T2H(i).sentCount == 0 && tcp.sockfd == KSI_INVALID_SOCKET), "queue: the send cursor of a queued request counts exactly the octets written (or is back at 0 because the connection ended)");
 				/* cursor invariant */
 				__CPROVER_assert(IMPLIES(i != t2_first, T2H(i).sentCount == 0), "Inv: only the head request may be partly written");
 				__CPROVER_assert(IMPLIES(tcp.sockfd == KSI_INVALID_SOCKET || !tcp.socketReady, T2H(i).sentCount == 0),
@@ -119,6 +119,11 @@ static _Bool t2_all_failed_with(int err) {
 static _Bool t2_queue_untouched(void) {
 	size_t i; _Bool ok = (t2_qlen == t2_qlen0 && t2_first == t2_first0);
 	for (i = 0; i < T2_QMAX; i++) ok = ok && t2_removed[i] == 0 && t2_written[i] == 0 && T2H(i).state == t2_state0[i] && T2H(i).sentCount == t2_sent0[i];
+	return ok;
+}
+static _Bool t2_queue_untouched_but_cursor(void) {
+	size_t i; _Bool ok = (t2_qlen == t2_qlen0 && t2_first == t2_first0);
+	for (i = 0; i < T2_QMAX; i++) ok = ok && t2_removed[i] == 0 && t2_written[i] == 0 && T2H(i).state == t2_state0[i] && (T2H(i).sentCount == t2_sent0[i] || T2H(i).sentCount == 0) && T2H(i).raw == t2_rawp[i] && T2H(i).len == t2_len0[i];
 	return ok;
 }
 static _Bool t2_no_descriptor_open(void) { size_t i; _Bool ok = 1; for (i = 0; i < T2_NFD; i++) ok = ok && t2_fd_state[i] != T2_OPEN; return ok; }
@@ -145,7 +150,7 @@ void harness(void) {
 				"closeSocket: the state listener hears 'disconnected' exactly once, and only if the connection had been established");
 		__CPROVER_assert(tcp.roundCount == t2_roundCount0 && tcp.roundStartAt == t2_roundStartAt0 && tcp.connectedAt == t2_connectedAt0 && tcp.reqQueue == &rq && tcp.respQueue == &sq && tcp.parent == &parent && tcp.host == t2_hostname,
 				"closeSocket frame: throttling round (time based, not per connection), queues, endpoint untouched");
-		__CPROVER_assert(t2_queue_untouched() && t2_qlen == q0 && t2_send_calls == 0 && g_recv_calls == 0, "closeSocket frame: no request touched, nothing sent or read");
+		__CPROVER_assert(t2_queue_untouched_but_cursor() && t2_qlen == q0 && t2_send_calls == 0 && g_recv_calls == 0, "closeSocket frame: no request leaves the queue or changes state, nothing sent or read (a send cursor may only stay or go back to 0)");
 		if (t2_sockfd0 != KSI_INVALID_SOCKET && t2_ready0) REACH("closed an established connection");
 	}
 }
@@ -327,7 +332,7 @@ void harness(void) {
 #define H_QMAX T2_QMAX
 #endif
 void harness(void) {
-	int res; size_t i, n_sent = 0, n_timeout = 0, n_other = 0; _Bool restarted;
+	int res; size_t i, n_sent = 0, n_timeout = 0, n_other = 0; _Bool restarted, pt = 0;
 	unsigned long long maxc, dur, sto;
 	t2_setup(2, H_QMAX);
 #ifdef H_send
@@ -339,11 +344,14 @@ void harness(void) {
 	REACH("dispatch returns");
 	t2_check_inv();
 	__CPROVER_assert(t2_gai_calls == 0 && t2_socket_calls == 0 && t2_connect_calls == 0, "established: no new connection is opened");
-	__CPROVER_assert(IFF(t2_peer_failed, res == KSI_ASYNC_CONNECTION_CLOSED) && IMPLIES(t2_peer_failed, tcp.sockfd == KSI_INVALID_SOCKET && t2_close_calls == 1),
-			"peer close / reset / failed poll, recv or send <=> connection closed exactly once + KSI_ASYNC_CONNECTION_CLOSED");
-	__CPROVER_assert(IMPLIES(!t2_peer_failed, tcp.sockfd == T2_FD0 && t2_close_calls == 0 && tcp.socketReady), "no failure => the connection stays open and ready");
-	__CPROVER_assert(IMPLIES(!t2_peer_failed && !t2_env_failed, res == KSI_OK), "would-block results, throttling and send time-outs fail nothing at call level");
-	__CPROVER_assert(t2_listener_calls == ((t2_peer_failed && t2_has_listener) ? 1u : 0u), "listener hears 'disconnected' exactly when the connection ended");
+	/* pt: a PARTLY written request ran into its send time-out.  The code as it is goes on using the connection (defect 2, caught by the wire
+	 * obligations of Inv); a repaired version may end the connection instead - the call level obligations admit both. */
+	for (i = 0; i < T2_QMAX; i++) if (i < t2_qlen0 && t2_removed[i] && T2H(i).state == KSI_ASYNC_STATE_ERROR && t2_state0[i] == KSI_ASYNC_STATE_WAITING_FOR_DISPATCH && t2_rm_sent[i] > 0) pt = 1;
+	__CPROVER_assert(IMPLIES(t2_peer_failed, res == KSI_ASYNC_CONNECTION_CLOSED && tcp.sockfd == KSI_INVALID_SOCKET && t2_close_calls == 1) && IMPLIES(res == KSI_ASYNC_CONNECTION_CLOSED, (t2_peer_failed || pt) && tcp.sockfd == KSI_INVALID_SOCKET),
+			"peer close / reset / failed poll, recv or send => connection closed exactly once + KSI_ASYNC_CONNECTION_CLOSED; connection-closed is reported only then (or when a half-written request timed out)");
+	__CPROVER_assert(IMPLIES(!t2_peer_failed && !pt, tcp.sockfd == T2_FD0 && t2_close_calls == 0 && tcp.socketReady), "no failure => the connection stays open and ready");
+	__CPROVER_assert(IMPLIES(!t2_peer_failed && !t2_env_failed && !pt, res == KSI_OK), "would-block results, throttling and send time-outs fail nothing at call level");
+	__CPROVER_assert(IMPLIES(t2_peer_failed, t2_listener_calls == (t2_has_listener ? 1u : 0u)) && IMPLIES(!t2_peer_failed && !pt, t2_listener_calls == 0), "listener hears 'disconnected' exactly when the connection ended");
 	for (i = 0; i < T2_QMAX; i++) if (i < t2_qlen0 && t2_removed[i]) {
 		if (T2H(i).state == KSI_ASYNC_STATE_WAITING_FOR_RESPONSE && t2_state0[i] == KSI_ASYNC_STATE_WAITING_FOR_DISPATCH) {
 			n_sent++;
@@ -364,7 +372,7 @@ void harness(void) {
 	__CPROVER_assert(IMPLIES(n_sent > 0, tcp.roundCount <= maxc), "throttle: never more than the configured number of requests per round");
 	__CPROVER_assert(IMPLIES(t2_send_calls > 0 || t2_rm_seq > 0, t2_poll_res > 0 && (t2_revents & POLLOUT)), "output only when poll reports the socket writable");
 	/* progress: nothing is held back without a reason */
-	if (t2_qlen > 0 && !t2_peer_failed && !t2_env_failed && t2_poll_res > 0 && (t2_revents & POLLOUT) && !t2_send_wouldblock) {
+	if (t2_qlen > 0 && !t2_peer_failed && !t2_env_failed && !pt && t2_poll_res > 0 && (t2_revents & POLLOUT) && !t2_send_wouldblock) {
 		__CPROVER_assert(!(tcp.roundCount < maxc), "progress: requests stay queued on a writable connection only because the round is full");
 		REACH("held back by throttling");
 	}
